@@ -1146,6 +1146,83 @@ func ruleCursorDirection(c *Ctx, cts []cursorType, rule, paramRule string) {
 			}
 			c.Analysed(FnName(fn))
 			c.Check(used, paramRule, FnName(fn)+": direction parameter "+prm.Name(), p.Pos(fn.Pos()), "the direction the caller asks for is looked at", "the function hands out a set cursor but never looks at its direction parameter "+prm.Name()+": a caller asking for the reverse cursor is served the forward one (ascending enumeration, Seek landing on the first element >= v)")
+			if !used {
+				continue
+			}
+			// (3b) every cursor handed out was chosen under the direction: it is made by a call that is told the
+			// direction, or on a path that branched on it. (Round 13: a function that only tells the direction to the
+			// empty cursor it answers when there is nothing to enumerate.)
+			fi := ComputeFacts(fn)
+			var aware func(v ssa.Value, blk *ssa.BasicBlock, d int) bool
+			aware = func(v ssa.Value, blk *ssa.BasicBlock, d int) bool {
+				if d > 6 {
+					return false
+				}
+				if fi.Holds(blk, Fact{"true", prm, true}) || fi.Holds(blk, Fact{"true", prm, false}) {
+					return true
+				}
+				switch x := v.(type) {
+				case *ssa.MakeInterface:
+					return aware(x.X, blk, d+1)
+				case *ssa.ChangeInterface:
+					return aware(x.X, blk, d+1)
+				case *ssa.Const:
+					return true // nil
+				case *ssa.UnOp:
+					if g, isG := x.X.(*ssa.Global); isG && strings.Contains(g.Name(), "EmptyCursor") {
+						return true // the empty cursor has no direction
+					}
+					return false
+				case *ssa.Phi:
+					for i, e := range x.Edges {
+						if !aware(e, x.Block().Preds[i], d+1) {
+							return false
+						}
+					}
+					return true
+				case *ssa.Call:
+					if fi.Holds(x.Block(), Fact{"true", prm, true}) || fi.Holds(x.Block(), Fact{"true", prm, false}) {
+						return true
+					}
+					for _, a := range x.Call.Args {
+						if a == ssa.Value(prm) {
+							return true
+						}
+						if u, isU := a.(*ssa.UnOp); isU && u.X == ssa.Value(prm) {
+							return true
+						}
+						// a cursor wrapped around a direction-aware cursor (NewFilteredCursor(inner, …)); a cursor
+						// taken from an object that was made under the direction (NewTreeSet(forward).ToCursor())
+						if _, isCall := a.(*ssa.Call); (isCall || isSetCursorIface(a.Type())) && aware(a, x.Block(), d+1) {
+							return true
+						}
+					}
+					// the empty cursor has no direction
+					if cal, _ := calleeOf(&x.Call); cal != nil && strings.Contains(cal.Name(), "EmptyCursor") {
+						return true
+					}
+					if x.Call.IsInvoke() {
+						return false
+					}
+					// a closure that captured the direction
+					if mc, isMc := x.Call.Value.(*ssa.MakeClosure); isMc {
+						for _, b := range mc.Bindings {
+							if b == ssa.Value(prm) {
+								return true
+							}
+						}
+					}
+					return false
+				}
+				return false
+			}
+			for _, ret := range returnsOf(fn) {
+				if len(ret.Results) != 1 {
+					continue
+				}
+				ok := aware(ret.Results[0], ret.Block(), 0)
+				c.Check(ok, paramRule, FnName(fn)+": cursor handed out at "+p.Pos(ret.Pos()), p.Pos(ret.Pos()), "the cursor handed out was made under the direction asked for", "the cursor handed out here is made without regard to the direction parameter "+prm.Name()+" (it is neither made by a call that is told the direction nor on a path that branched on it): a caller asking for the reverse cursor is served a forward one — a descending id scan comes back ascending, and skip/limit cut the wrong page")
+			}
 		}
 	}
 	c.Floor(rule, 8)
